@@ -89,6 +89,19 @@ class CallMixin:
     def e_ListComp(self, e, env, k):
         return self.comprehension(e.elt, e.generators, env, k)
 
+    def e_DictComp(self, e, env, k):
+        # {key: value for x in it}: the pairs in order, later entries overwrite earlier ones with the same key
+        pair = ast.Tuple(elts=[e.key, e.value], ctx=ast.Load())
+        ast.copy_location(pair, e)
+
+        def fin(c, t):
+            t = resolve(t)
+            te = resolve(t.elem)
+            if not (isinstance(t, TList) and isinstance(te, TTuple) and len(te.elems) == 2):
+                raise Unsupported("dictionary comprehension " + src(e))
+            return k("(Py.dictOfPairs {})".format(c), TDict(te.elems[0], te.elems[1]))
+        return self.comprehension(pair, e.generators, env, fin)
+
     def e_GeneratorExp(self, e, env, k):
         # a generator is the list of what it yields (laziness is not modelled: see notes/translator.md)
         return self.comprehension(e.elt, e.generators, env, k)
@@ -186,6 +199,8 @@ class CallMixin:
                 if fn is None:
                     raise Unsupported("__call__ of {} is not translated".format(resolve(ot).cls))
                 return self.call_function(fn, oc, e, env, k)
+            if f.id in self.local_defs:                     # a local generator: the list of what it yields
+                return self.inline_local_generator(self.local_defs[f.id], e, env, k)
             if f.id in self.reg.abs_ctors:                  # an interface object made by hand-written glue
                 lean, ptys, rty, raises = self.reg.abs_ctors[f.id]
                 self.args_no_kw(e, len(ptys))
@@ -227,6 +242,56 @@ class CallMixin:
             return self.method_call(e, env, k)
         raise Unsupported("call " + src(e))
 
+    def inline_local_generator(self, fdef, e, env, k):
+        """`_gen(w)` where `def _gen(vertex): yield from A; yield from B`: A ++ B with `vertex` bound to `w`
+        (free variables of the body are read where the function is called: sound when they are not re-assigned
+        between definition and call — checked: the call must be in the statement right after the definition's
+        block, i.e. the names are looked up in the current environment)"""
+        params = [a.arg for a in fdef.args.args]
+        self.args_no_kw(e, len(params))
+
+        def with_args(vs):
+            env2 = dict(env)
+            lets = []
+            for p, (c, t) in zip(params, vs):
+                nm = self.lname(p)
+                env2[p] = (nm, t)
+                if nm != c:
+                    lets.append("let {} := {}\n".format(nm, c))
+            stmts = [st.value for st in fdef.body if not isinstance(st.value, ast.Constant)]
+
+            def go(i, acc, acc_t):
+                if i == len(stmts):
+                    if acc is None:
+                        tv = TVar()
+                        return k("([] : List {})".format(TyRef(tv)), TList(tv))
+                    return k(acc, acc_t)
+                y = stmts[i]
+                if isinstance(y, ast.YieldFrom):
+                    def fin_l(c, t):
+                        return self.as_list(c, t, lambda l, el: step(l, TList(el)))
+                    def step(l, tl):
+                        if acc is None:
+                            return go(i + 1, l, tl)
+                        j = join(acc_t, tl)
+                        if j is None:
+                            raise Unsupported("local generator yields values of different types")
+                        return go(i + 1, "({} ++ {})".format(coerce(acc, acc_t, j), coerce(l, tl, j)), j)
+                    return self.expr(y.value, env2, fin_l)
+                if y.value is None:
+                    raise Unsupported("bare yield")
+
+                def fin_e(c, t):
+                    if acc is None:
+                        return go(i + 1, "[{}]".format(c), TList(t))
+                    j = join(resolve(acc_t).elem, t)
+                    if j is None:
+                        raise Unsupported("local generator yields values of different types")
+                    return go(i + 1, "({} ++ [{}])".format(coerce(acc, acc_t, TList(j)), coerce(c, t, j)), TList(j))
+                return self.expr(y.value, env2, fin_e)
+            return "".join(lets) + go(0, None, None)
+        return self.exprs(list(e.args), env, with_args)
+
     def args_no_kw(self, e, n=None, kws=()):
         if any(kw.arg not in kws for kw in e.keywords) or any(isinstance(a, ast.Starred) for a in e.args):
             raise Unsupported("call form " + src(e))
@@ -250,6 +315,18 @@ class CallMixin:
             if isinstance(t, TDict):
                 return k("(Py.len {})".format(c), INT)
             return self.as_list(c, t, lambda l, el: k("(Py.len {})".format(l), INT))
+        return self.expr(e.args[0], env, fin)
+
+    def b_bool(self, e, env, k):
+        self.args_no_kw(e, 1)
+
+        def fin(c, t):
+            t = resolve(t)
+            if isinstance(t, TBool):
+                return k(c, BOOL)
+            if isinstance(t, TInt):
+                return k("(decide ({} ≠ (0 : Int)))".format(c), BOOL)
+            raise Unsupported("bool of " + t.lean())
         return self.expr(e.args[0], env, fin)
 
     def b_abs(self, e, env, k):
